@@ -1597,7 +1597,11 @@ class BaseDocWriter(object):
     def intOrFloat(self, num):
         if int(num) == num:
             return "%d" % num
-        return ("%f" % num).rstrip("0").rstrip(".")
+        text = ("%f" % num).rstrip("0").rstrip(".")
+        if float(text) != num:
+            # more than 6 decimals: keep the value exact
+            text = repr(float(num))
+        return text
 
     def _addRule(self, ruleObject):
         ruleElement = ET.Element("rule")
